@@ -45,7 +45,7 @@ func (f *Fi[T]) Compute(closings, volumes <-chan T) <-chan T {
 	return f.Ema.Compute(
 		helper.Multiply(
 			helper.Change(closings, 1),
-			volumes,
+			helper.Buffered(volumes, 1),
 		),
 	)
 }
